@@ -29,7 +29,10 @@ def make_chain(names):
         c = Ctx()
         fs = c.fs = ModelFS()
         dirs = ['', 'd1', 'd1/d2', 'd1/d2/d3', 'd1/d2/d3/d4'][:depth + 1]
-        mnames = ['Manifest'] + [posixpath.join(dirs[i + 1], names[i])
+        if names[0].startswith('./'):
+            # the first link stays in the top directory (Manifest -> Manifest.a -> d1/...)
+            dirs = ['', '', 'd1', 'd1/d2', 'd1/d2/d3'][:depth + 1]
+        mnames = ['Manifest'] + [posixpath.join(dirs[i + 1], names[i].replace('./', ''))
                                  for i in range(depth)]
         c.mnames = mnames
         c.dirs = dirs
@@ -62,6 +65,8 @@ def make_chain(names):
                 fs.add_manifest(mnames[i], ents, size=link[i - 1][0], digest=link[i - 1][1])
         c.api = v.choice('api', 5)
         c.pidx = v.choice('pidx', depth + 1)
+        # other loader calls made before the query (a loader is normally long-lived)
+        c.warmup = v.choice('warmup', 3)
         return c
     return s_chain
 
@@ -81,6 +86,13 @@ def run_api(c):
         try:
             m = ManifestRecursiveLoader(posixpath.join(fs.root_path, 'Manifest'),
                                         verify_openpgp=False)
+            try:
+                if c.warmup == 1:
+                    m.find_timestamp()
+                elif c.warmup == 2:
+                    m.find_dist_entry('nonexistent.tar', '')
+            except ManifestMismatch:
+                pass
             if api == 'assert_directory_verifies':
                 return ('ret', m.assert_directory_verifies(d))
             if api == 'verify_path':
@@ -162,10 +174,13 @@ def _same(e1, e2):
 def conditions(tier):
     cs = []
     if tier == 'quick':
-        layouts = [('c3', ('Manifest.gz', 'Manifest', 'Manifest.xz'))]
+        layouts = [('c3', ('Manifest.gz', 'Manifest', 'Manifest.xz')),
+                   ('s3', ('./Manifest.a', 'Manifest.bz2', 'Manifest'))]
     else:
         layouts = [('c3', ('Manifest.gz', 'Manifest', 'Manifest.xz')),
-                   ('c4', ('Manifest', 'Manifest.bz2', 'Manifest.lzma', 'Manifest'))]
+                   ('s3', ('./Manifest.a', 'Manifest.bz2', 'Manifest')),
+                   ('c4', ('Manifest', 'Manifest.bz2', 'Manifest.lzma', 'Manifest')),
+                   ('s4', ('./Manifest.a', './Manifest.b.gz', 'Manifest', 'Manifest.xz'))]
     for lname, names in layouts:
         sc = make_chain(names)
         depth = len(names)
@@ -176,7 +191,8 @@ def conditions(tier):
                 twin=(fx['pidx'] == depth),
                 descr=f'{APIS[fx["api"]]} at level {fx["pidx"]} of a depth-{depth} Manifest '
                       f'chain ({names}); every Manifest file (size,digest) and every MANIFEST '
-                      'entry (size,digest) independent symbols',
+                      'entry (size,digest) independent symbols; optionally find_timestamp() or a '
+                      'DIST lookup on the same loader first',
                 bounds=f'depth {depth}; one file per level + symbolic bottom file/entry; '
                        'sizes any int>=0, digests any 1-char token'))
     return cs
